@@ -142,3 +142,58 @@ PROPS = {
         assumptions=["integration allowance per numeric segment 2e3*tol*(1+|y|) (fixed step: 2e-6, rk2 1e-5), accumulated over the history and multiplied by 4 for the bounded growth of the generated problems"],
     ),
 }
+
+# ---- texts for MANIFEST.json (tools/gen_manifest.py)
+NOTES = ("Runtime monitoring only: every verdict comes from an oracle observing executions of the real library compiled from /repo's working tree "
+         "(gcc ASan+UBSan, -O3, TSan, clang alignment builds). Exit 0 held on what was explored / 1 VIOLATION / 2 inconclusive. "
+         "known_findings.json lists repaired defects (status fixed; suppress nothing) and recorded ones (status known).")
+NOT_APPLICABLE = {}
+ENGINE_TEXT = {
+    "h_algebra": "C++ harness: reference-model monitors for the SU_vector algebra (long double dense matrices, Gell-Mann basis by formula), run under ASan+UBSan and -O3",
+    "h_expm": "C++ harness: matrix exponential against a long double Taylor reference with Frechet-derivative condition numbers and Pade-branch events from a hook",
+    "h_solver": "C++ harness: SQuIDS subclass with manufactured / commuting exact solutions, online callback monitor, history interpreter with history-free twin",
+}
+_T = {
+    "C01": ("Reference-model monitor over sampled inputs plus an exhaustive pass over every slot of the generated basis-change kernels; it reports 'held on the cases listed in the evidence', not a proof over all reals.",
+            "Trusted: harness reference maths (ref.h, self-checked at start-up), IEEE double arithmetic of the host. Tolerance 8*eps*d*|c|max; exact where the statement says exact.",
+            "runtime monitoring: reference-model oracle (independent Gell-Mann basis) over exhaustive kernel slots and sampled value classes, under ASan/UBSan and -O3"),
+    "C02": ("All 2274 ordered generator pairs (every structure constant) are executed and judged, plus sampled dense/structured pairs and the algebraic identities; sampled, not proved, for non-basis inputs.",
+            "Trusted: ref.h products in long double. Tolerance 256*eps*d*|A||B|; scalar product 64*eps*sum|terms|.",
+            "runtime monitoring: reference-model oracle, exhaustive over generator pairs + sampled pairs, symmetry/bilinearity monitors"),
+    "C03": ("Sampled (H,A,t) across degenerate/zero spectra and 24 decades of t against diag-phase conjugation in long double; invariants (t=0, diagonal components, group law, scalar products) judged on every case.",
+            "Trusted: long double sin/cos of libm for the reference phases; tolerance 64*eps*(1+W|t|)|A| with W the sum of |diagonal components|.",
+            "runtime monitoring: reference-model oracle + invariant monitors; exact-size heap tables so ASan sees table overruns"),
+    "C04": ("Executes the real solver on thousands of configurations covering all 32 switch settings x 11 stepper modes x sizes with problems whose exact solution is known, and watches every callback online. Assurance is 'no deviation on the explored configurations'.",
+            "Trusted: GSL's steppers converge at their order for the smooth, non-stiff generated problems; allowance 2e3*tol (adaptive) / 2e-6 (fixed) was set >=25x above the worst deviation observed on the unchanged tree.",
+            "runtime monitoring: method of manufactured solutions + commuting closed forms as oracle, online checker of the callback event log, NaN poison on disabled terms"),
+    "C05": ("Sampled grids/histories/queries against a long double Schroedinger-picture trace with convex interpolation; every out-of-range query class (1 ulp to infinity, below and above, 5 entry points) must throw.",
+            "Trusted: ref.h; the stored state is read back from the object, so only the query path is judged here (evolution is C04/C10).",
+            "runtime monitoring: reference-model oracle over query sweeps incl. node +-1ulp and outside points; histories set t-t_ini"),
+    "C06": ("Each of the 35 generated rotation kernels is executed on a 12x12 grid of special angles and on random ones; all matrix entry points are compared with the reference on library-made and Haar unitaries; Const index window 0..8 x 0..8 exhaustive.",
+            "Trusted: ref.h; convention R(i,j)=sin(theta)exp(-i delta), R(j,i)=-conj, later planes multiplied from the left (verified against the unchanged tree).",
+            "runtime monitoring: reference-model oracle, exhaustive kernel x special-angle cells + sampled parameter sets, cross-entry-point agreement"),
+    "C07": ("Sampled matrices from 11 families across every norm band and size, each after a random call history on the thread, judged against a long double reference with a run-time condition number; coverage floors require every Pade branch and squaring count to have been observed (hook events).",
+            "Trusted: 40-term long double Taylor reference; condition estimate by power iteration on the Frechet derivative (x n safety), exact on a quarter of thorough cases. K=256 is ~90x above the worst ratio on the repaired tree.",
+            "runtime monitoring: reference oracle with Frechet-derivative conditioning, branch/squaring events from a hook as coverage floor, call-history workload"),
+    "C10": ("Random operation histories are executed on the real solver; after every operation the clock, the state (composed exact maps and a history-free twin object), the view aliasing and the bitwise freeze are checked. Held on the histories explored.",
+            "Trusted: exact per-segment maps of the commuting family; twin object built through the same public API; allowance accumulates 2e3*tol per numeric segment x4.",
+            "runtime monitoring: history interpreter with shadow model, history-free twin oracle, bitwise freeze check, hook events proving the skipped-rebind and re-alias paths ran; ASan for stale pointers after moves"),
+    "C11": ("Sampled operators/times/scales in all dimensions; the pair order is learned from the plain table; an exactly representable sub-family lets the strict 'exceeds' be judged at equality; interval averages compared entry-wise with the exact average incl. omega=0.",
+            "Trusted: ref.h and libm in long double; comparisons within rounding of a threshold are skipped (counted), never judged.",
+            "runtime monitoring: learned pair map + predicate oracles on table entries/flags, exact-average oracle, exception/untouched-buffer oracle"),
+    "C12": ("Every structured input class that breaks closed forms is enumerated (all generators, projectors, zero) and sampled (near-degenerate, scaled, partially vanishing); each result is checked as a decomposition (finite, residual, unitarity, order, trace invariants).",
+            "Trusted: ref.h products; tolerance 1e-9 relative to |M|max because the claim is validity, not last-bit accuracy.",
+            "runtime monitoring: decomposition-validity oracle over exhaustive structured inputs and sampled perturbations; solver-choice events from a hook"),
+    "C13": ("The whole (finite) space is enumerated: 145 factory objects plus the derived identities.",
+            "Trusted: ref.h basis. PosProjector/NegProjector reject k=d themselves, so k=d is not judged.",
+            "runtime monitoring: exhaustive enumeration against reference 0/1 matrices"),
+    "C17": ("nx=2..130 exhaustively and random nx to 5000, three grid kinds each, with every node, node+-1ulp, midpoint and random interior points plus ten outside points queried.",
+            "Trusted: long double evaluation of the documented grid formula; ulp allowance 4 (linear) / 8+2|log| (log).",
+            "runtime monitoring: predicate oracle on grids and on every lookup result (bracketing, last interval, exception outside)"),
+}
+for _k, (_lt, _ln, _te) in _T.items():
+    if _k in PROPS:
+        PROPS[_k]["level_text"] = _lt
+        PROPS[_k]["level_note"] = _ln
+        PROPS[_k]["technique"] = _te
+        PROPS[_k]["design_ref"] = "DESIGN.md section 4-7 (" + _k + ")"
